@@ -63,7 +63,7 @@
                     (if (char? (cdr x))
                         (cdr x)
                         (error "invalid record-separator, expected a char or one of 'lax or 'crlf" (cdr x)))))))
-            (csv-grammar-escape-char-set! grammar (cdr x))))
+            (csv-grammar-record-separator-set! grammar rec-sep)))
          ((comment-chars)
           (csv-grammar-comment-chars-set! grammar (cdr x)))
          ((quote-non-numeric?)
